@@ -537,6 +537,51 @@ def r15_7(ctx, rep):
         raise MechanismMissing(R, "expected the positive and the negative alias registration")
 
 
+@SPEC.rule(
+    "R15.8",
+    "a new alias joins two DIFFERENT classes: every alias_relation.add in the alias pass is dominated by the failed test "
+    "`canonical_signed(A)[0] == canonical_signed(B)[0]` (or the passed `!=`) — an equation between two variables that are "
+    "already aliases of each other (x = y; x + y = 0) removes no further unknown, so it must be kept, not dropped",
+)
+def r15_8(ctx, rep):
+    R = "R15.8"
+    fn = ctx.func(MODEL, "Model._simplify_once", R)
+    blk = option_blocks(fn).get("detect_aliases")
+    if blk is None:
+        raise MechanismMissing(R, "detect_aliases block not found")
+    site = MODEL + ":Model._simplify_once"
+    n = 0
+    for h in [x for x in ast.walk(blk) if isinstance(x, ast.FunctionDef)]:
+        cfg = CFG(h, R)
+
+        def differs(x):
+            if x.kind != "assume":
+                return False
+            for c in ast.walk(x.ast):
+                if isinstance(c, ast.Compare) and len(c.ops) == 1 and isinstance(c.ops[0], (ast.Eq, ast.NotEq)):
+                    sides = [c.left, c.comparators[0]]
+                    if all(isinstance(s_, ast.Subscript) and isinstance(s_.value, ast.Call) and isinstance(s_.value.func, ast.Attribute)
+                           and s_.value.func.attr == "canonical_signed" for s_ in sides) and norm(sides[0]) != norm(sides[1]):
+                        # the compare must be the whole test or a conjunct/disjunct whose outcome is implied by the branch
+                        eq = isinstance(c.ops[0], ast.Eq)
+                        facts = _conjuncts(x.ast, x.taken)
+                        if any(e is c and pol == (not eq) for e, pol in facts):
+                            return True
+            return False
+
+        for x in cfg.stmts():
+            if isinstance(x.ast, (ast.FunctionDef, ast.ClassDef)):
+                continue
+            for c in calls(x.ast):
+                if isinstance(c.func, ast.Attribute) and c.func.attr == "add" and "alias_relation" in norm(c.func.value) and len(c.args) == 2:
+                    n += 1
+                    rep.ob(R, site, "alias registration #%d joins two different classes" % n, bool(cfg.dominated_by(x.id, differs)),
+                           "`%s` can run for two variables that already are aliases of each other: the equation is dropped although no unknown "
+                           "is removed (x = y; x + y = 0 leaves x and y without equations)" % norm(c)[:70])
+    if n < 2:
+        raise MechanismMissing(R, "expected the positive and the negative alias registration")
+
+
 # -- seeded variants ---------------------------------------------------------
 from ._mut import delete_stmt_where, replace_in_func, replace_stmt_where  # noqa: E402
 
@@ -713,6 +758,19 @@ def _m_second_def(mod):
             if isinstance(n, ast.If) and norm(n.test).endswith(".name() in states") and len(n.orelse) == 1 and isinstance(n.orelse[0], ast.If) \
                     and n.orelse[0].orelse and any(isinstance(x, ast.Continue) for x in n.orelse[0].orelse):
                 n.orelse[0].orelse = []
+                return True
+        return False
+
+    return mod if replace_in_func(mod, "Model._simplify_once", edit) else None
+
+
+@SPEC.mutant("already related variables aliased again", MODEL, "R15.8", "joins two different classes")
+def _m_related(mod):
+    def edit(fn):
+        for n in ast.walk(fn):
+            if isinstance(n, ast.If) and isinstance(n.test, ast.Compare) and isinstance(n.test.ops[0], ast.Eq) and norm(n.test).count("canonical_signed") == 2 \
+                    and len(n.body) == 1 and isinstance(n.body[0], ast.Pass):
+                n.test = ast.Constant(value=False)
                 return True
         return False
 
